@@ -1,4 +1,5 @@
 import Frp.Engines.ConfBase
+import Frp.Model.CmdSpec
 /-
   Driver engine "conf" (C18), second part: one logical definition through files on disk, JSON, flags
   (`cf`), raw flag parsing on the regenerated registration tables (`fl`, `dfl`), client-side and server
@@ -209,29 +210,29 @@ def cvalStep (root : String) (kvs : List String) (impl : String) : Verdict :=
       verdictOf model impl (some (C18.visitorHoldsOn x name sname port proto (impl = "ok")))
   | _, _ => .bad "cval"
 
-def serverErrTag : ServerErr → String
-  | .auth => "auth" | .scopes => "scopes" | .log => "log" | .cert => "cert" | .key => "key"
-  | .port 0 => "port:webServer.port" | .port 1 => "port:bindPort" | .port 2 => "port:kcpBindPort"
-  | .port 3 => "port:quicBindPort" | .port 4 => "port:vhostHTTPPort" | .port 5 => "port:vhostHTTPSPort"
-  | .port _ => "port:tcpMuxHTTPConnectPort"
-
 def svalStep (kvs : List String) (impl : String) : Verdict :=
   match parseKVsS kvs with
   | some kv =>
-    let c := recOfS kv
-    let v : ServerView := {
-      authMethod := asStr (c.get (S "Auth.Method")), scopes := strsOf (c.get (S "Auth.AdditionalScopes")),
-      logLevel := asStr (c.get (S "Log.Level")),
-      webTLS := if c.get (S "WebServer.TLS") = .bool true
-        then some (asStr (c.get (S "WebServer.TLS.CertFile")), asStr (c.get (S "WebServer.TLS.KeyFile"))) else none,
-      webPort := asInt (c.get (S "WebServer.Port")), bindPort := asInt (c.get (S "BindPort")),
-      kcpBindPort := asInt (c.get (S "KCPBindPort")), quicBindPort := asInt (c.get (S "QUICBindPort")),
-      vhostHTTPPort := asInt (c.get (S "VhostHTTPPort")), vhostHTTPSPort := asInt (c.get (S "VhostHTTPSPort")),
-      tcpmuxPort := asInt (c.get (S "TCPMuxHTTPConnectPort")) }
-    let errs := validateServer v
-    let model := if errs.isEmpty then "ok" else ",".intercalate (errs.map serverErrTag)
-    verdictOf model impl (some (C18.serverHoldsOn v (impl = "ok")))
+    let v := CmdSpec.serverViewOf (recOfS kv) false
+    verdictOf (CmdSpec.errTags (validateServer v)) impl (some (C18.serverHoldsOn v (impl = "ok")))
   | none => .bad "sval"
+
+/-- `svalv <via> k=v…` / `ccval <via> k=v…`: the blocks of a server / client common definition generated
+    independently, judged by the real validator after the definition went through memory, a file of one of the
+    three formats (LoadServerConfig / LoadClientConfig) or argv (Register*Flags + Complete) -/
+def svalvStep (via : String) (kvs : List String) (impl : String) : Verdict :=
+  match parseKVsS kvs with
+  | some kv =>
+    let v := CmdSpec.serverViewOf (recOfS kv) (via ≠ "mem")
+    verdictOf (CmdSpec.errTags (validateServer v)) impl (some (C18.serverHoldsOn v (impl = "ok")))
+  | none => .bad "svalv"
+
+def ccvalStep (via : String) (kvs : List String) (impl : String) : Verdict :=
+  match parseKVsS kvs with
+  | some kv =>
+    let v := CmdSpec.clientCommonViewOf (recOfS kv) (via ≠ "mem")
+    verdictOf (CmdSpec.errTags (validateClientCommon v)) impl (some (C18.clientCommonHoldsOn v (impl = "ok")))
+  | none => .bad "ccval"
 
 /-! ### loads that overlap in time (`pload`), the loaded configuration handed on (`own`) -/
 
@@ -277,6 +278,8 @@ def stepExt (tok : List String) (impl : String) : Option Verdict :=
   | "cf" :: root :: via :: _strict :: user :: kvs => some (cfStep root via user kvs impl)
   | "cval" :: root :: kvs => some (cvalStep root kvs impl)
   | "sval" :: kvs => some (svalStep kvs impl)
+  | "svalv" :: via :: kvs => some (svalvStep via kvs impl)
+  | "ccval" :: via :: kvs => some (ccvalStep via kvs impl)
   | "pload" :: _seed :: n :: _rounds :: specs => some (ploadStep n specs impl)
   | ["own", _, _] => some (verdictOf "same idem kept" impl (some (impl = "same idem kept")))
   | ["nr", s] =>
